@@ -311,6 +311,13 @@ const xorStart = "genomestart 1\n" +
 	"gene 1 1 4 0.0 false 1 0 true\ngene 2 2 4 0.0 false 2 0 true\ngene 3 3 4 0.0 false 3 0 true\n" +
 	"genomeend 1\n"
 
+// node ids start at 0 (an id like any other; every shipped genome starts at 1)
+const zeroBasedIds = "genomestart 1\n" +
+	"trait 1 0.1 0 0 0 0 0 0 0\ntrait 2 0.2 0 0 0 0 0 0 0\n" +
+	"node 0 1 1 1 NullActivation\nnode 1 2 1 1 NullActivation\nnode 2 1 1 3 NullActivation\nnode 3 1 0 0 SigmoidSteepenedActivation\nnode 4 2 0 2 SigmoidSteepenedActivation\n" +
+	"gene 1 0 3 0.5 false 1 0.5 true\ngene 2 1 3 -0.5 false 2 -0.5 true\ngene 1 2 3 1.5 false 3 1.5 true\ngene 2 3 4 1.0 false 4 1.0 true\ngene 1 0 4 -1.0 false 5 -1.0 true\n" +
+	"genomeend 1\n"
+
 // one disconnected sensor (node 2) and a hidden node
 const xorDisconnected = "genomestart 1\n" +
 	"trait 1 0.1 0 0 0 0 0 0 0\ntrait 2 0.2 0 0 0 0 0 0 0\n" +
@@ -409,7 +416,7 @@ const negativeInnovations = "genomestart 1\n" +
 func startGenomes() []*genetics.Genome {
 	return []*genetics.Genome{readPlain(sensorLast, 1), readPlain(xorStart, 1), readPlain(xorDisconnected, 1), readPlain(tinyGenome, 1),
 		readPlain(nilTraitGenes, 1), readPlain(parallelRecurrent, 1), readPlain(bigMostlyIneligible(), 1), readPlain(sensorOnlyDisabled, 1),
-		readPlain(selfLoopFirst, 1), readPlain(danglingOutputAfterHidden, 1), readPlain(selfLoopNonRecurrent, 1), readPlain(negativeInnovations, 1)}
+		readPlain(selfLoopFirst, 1), readPlain(danglingOutputAfterHidden, 1), readPlain(selfLoopNonRecurrent, 1), readPlain(negativeInnovations, 1), readPlain(zeroBasedIds, 1)}
 }
 
 func startEnv(g *genetics.Genome) *venv {
